@@ -80,9 +80,9 @@ def run(ctx) -> None:
 
     # ---------------------------------------------------------------- R1
     r.rule("C11.R1", "the regex that re-tokenises the filter condition accepts, as one token, exactly the token language of the condition grammar (first and following character classes = identifier ∪ pattern alphabet)")
-    subs = [c for c in walk_no_nested(ap.node) if isinstance(c, ast.Call) and call_name(c) == "re.sub"]
+    subs = [c for c in walk_no_nested(ap.node) if isinstance(c, ast.Call) and call_name(c) in ("re.sub", "re.finditer", "re.findall", "re.compile", "re.split") and c.args]
     if len(subs) != 1:
-        raise AnalysisError(f"{ap.qual}: expected exactly one re.sub call, found {len(subs)}")
+        raise AnalysisError(f"{ap.qual}: expected exactly one tokenising regex call (re.sub/finditer/findall/compile), found {len(subs)}")
     sub = subs[0]
     loc = f"{ap.module.relpath}:{sub.lineno}"
     try:
@@ -104,25 +104,20 @@ def run(ctx) -> None:
         miss, extra = sorted(token_alpha - rest), sorted(rest - token_alpha)
         r.violation("C11.R1", ap.qual, f"token regex {pattern!r} (following characters)",
                     f"characters {miss[:12]} may occur inside a name in the grammar but end a token for the rewriting regex (extra: {extra[:8]})", loc)
-    if len(sub.args) >= 3 and unparse(sub.args[2]) == "self.filter.condition[0]":
-        r.ok("C11.R1", ap.qual, "rewrites self.filter.condition[0]", loc)
+    text_arg = sub.args[2] if call_name(sub) == "re.sub" and len(sub.args) >= 3 else (sub.args[1] if len(sub.args) >= 2 else None)
+    text_src = unparse(text_arg) if text_arg is not None else ""
+    if isinstance(text_arg, ast.Name):
+        defs = [unparse(v) for v in assignments_to(ap.node, text_arg.id) if isinstance(v, ast.AST)]
+        text_src = defs[0] if len(defs) == 1 else text_src
+    if text_src == "self.filter.condition[0]":
+        r.ok("C11.R1", ap.qual, "tokenises self.filter.condition[0]", loc)
     else:
         r.violation("C11.R1", ap.qual, short(sub, 120), "the rewritten text is not the filter's condition string", loc)
 
     # ---------------------------------------------------------------- R2
-    r.rule("C11.R2", "_CONDITION_KEYWORDS ∪ {'them'} equals the keyword set of the grammar and the membership test is case-sensitive like the grammar's keywords")
-    fc = prog.cls(F)
-    kw_attr = prog.lookup_class_attr(F, "_CONDITION_KEYWORDS")
-    if kw_attr is None:
-        raise AnalysisError(f"anchor vanished: {F}._CONDITION_KEYWORDS")
-    kws = set(const_eval(prog, fc.module, kw_attr[1].value))  # type: ignore[attr-defined]
-    kloc = f"{fc.module.relpath}:{kw_attr[1].lineno}"
-    if kws == GRAMMAR_KEYWORDS:
-        r.ok("C11.R2", F, f"_CONDITION_KEYWORDS = {sorted(kws)}", kloc)
-    else:
-        r.violation("C11.R2", F, f"_CONDITION_KEYWORDS = {sorted(kws)}",
-                    f"differs from the grammar's keywords: missing {sorted(GRAMMAR_KEYWORDS - kws)}, extra {sorted(kws - GRAMMAR_KEYWORDS)}; a missing keyword is prefixed like a detection name, an extra one leaves a detection of that name unprefixed", kloc)
-    # grammar keywords re-derived from conditions.py
+    r.rule("C11.R2", "the rewriting treats exactly the grammar's keywords as keywords, case-sensitively and only where the grammar reads them as keywords: apply_on_rule interpreted on sample conditions (sa.tabulate, shared with C02.R6), incl. names that differ from a keyword by case only")
+    from . import c02
+    # grammar keywords re-derived from conditions.py (the sample table below is written for this set)
     gk = set()
     for nm in ("quantifier", "selector", "condition"):
         for c in ast.walk(_module_assign(cm, nm)):
@@ -133,62 +128,40 @@ def run(ctx) -> None:
     if gk == GRAMMAR_KEYWORDS:
         r.ok("C11.R2", "sigma.conditions", f"grammar keywords {sorted(gk)}")
     else:
-        r.violation("C11.R2", "sigma.conditions", f"grammar keywords {sorted(gk)}", f"condition grammar keywords changed; filter rewriting table {sorted(GRAMMAR_KEYWORDS)} no longer agrees")
-    rt = next((f for f in prog.funcs.values() if f.qual.startswith(ap.qual + ".<locals>.") and f.name == "_replace_token"), None)
-    if rt is None:
-        raise AnalysisError(f"{ap.qual}: nested _replace_token not found")
-    tests = [n for n in walk_no_nested(rt.node) if isinstance(n, ast.Compare) and "_CONDITION_KEYWORDS" in unparse(n)]
-    if len(tests) != 1:
-        raise AnalysisError(f"{rt.qual}: keyword membership test not found")
-    t = tests[0]
-    tloc = f"{rt.module.relpath}:{t.lineno}"
-    if unparse(t.left) == "token" and isinstance(t.ops[0], ast.In):
-        r.ok("C11.R2", rt.qual, unparse(t), tloc)
+        r.violation("C11.R2", "sigma.conditions", f"grammar keywords {sorted(gk)}", f"condition grammar keywords changed; the filter rewriting table {sorted(GRAMMAR_KEYWORDS)} no longer agrees")
+    case_samples = [("not Or", "not P_Or"), ("NOT and Any", "P_NOT and P_Any"), ("not And", "not P_And"), ("All of x*", "P_All P_of P_x*"),
+                    ("1 of Them", "1 of P_Them"), ("not flt or not OF", "not P_flt or not P_OF")]
+    bad = c02.filter_rewrite_failures(ctx, c02.FILTER_SAMPLES + case_samples)
+    if bad:
+        cond, why = bad[0]
+        r.violation("C11.R2", ap.qual, f"filter condition {cond!r}", f"{why} (+{len(bad) - 1} more sample(s)): a word the grammar reads as a detection name is left unprefixed (it then names a detection of the rule, or nothing), or a keyword is prefixed", ap.loc)
     else:
-        r.violation("C11.R2", rt.qual, unparse(t),
-                    "keyword test normalises the token (case-folding/stripping) although grammar keywords are case-sensitive: a filter detection called 'Or', 'NOT' or 'Any' is left unprefixed and no longer resolves", tloc)
+        r.ok("C11.R2", ap.qual, f"{len(c02.FILTER_SAMPLES) + len(case_samples)} sample conditions rewritten as the grammar reads them (keywords case-sensitive, positional)", ap.loc)
 
     # ---------------------------------------------------------------- R5 (callback + combination)
-    r.rule("C11.R5", "capture-freedom mechanism: the drawn prefix starts with '_'; the callback returns keywords unchanged, 'them' as prefix+'_*' and every other token as prefix+'_'+token; detections are stored under prefix+'_'+name; both sides of the combined condition are parenthesised and joined by 'and'")
+    r.rule("C11.R5", "capture-freedom mechanism: the drawn prefix starts with '_' and is drawn again while existing detection names start with it (interpreted with a colliding draw); detections are stored under prefix+'_'+name; both sides of the combined condition are parenthesised and joined by 'and'")
     pdefs = assignments_to(ap.node, "prefix")
     ploc = ap.loc
     ok_prefix = False
-    if len(pdefs) == 1 and isinstance(pdefs[0], ast.BinOp) and isinstance(pdefs[0].left, ast.Constant) and str(pdefs[0].left.value).startswith("_"):
+    if pdefs and all(isinstance(d_, ast.BinOp) and isinstance(d_.left, ast.Constant) and str(d_.left.value).startswith("_") for d_ in pdefs):
         ok_prefix = True
         ploc = f"{ap.module.relpath}:{pdefs[0].lineno}"
     if ok_prefix:
         r.ok("C11.R5", ap.qual, f"prefix = {short(pdefs[0], 80)}", ploc)
     else:
         r.violation("C11.R5", ap.qual, "prefix = '_filt_' + ...", "the injected prefix does not provably start with '_': rule selectors such as '1 of sel*'/'them' are only kept away from injected detections by the underscore rule", ploc)
-    rets = [x for x in walk_no_nested(rt.node) if isinstance(x, ast.Return)]
-    seen = set()
-    for x in rets:
-        gs = atomic_guards(guards_at(prog, rt, x))
-        v = unparse(x.value).replace('"', "'")
-        xl = f"{rt.module.relpath}:{x.lineno}"
-        kwtrue = any("_CONDITION_KEYWORDS" in g and p for g, p in gs)
-        themtrue = ("token == 'them'".replace("'", '"'), True) in gs or ("token == 'them'", True) in [(g.replace('"', "'"), p) for g, p in gs]
-        if kwtrue:
-            seen.add("kw")
-            if v == "token":
-                r.ok("C11.R5", rt.qual, "keyword → unchanged", xl)
-            else:
-                r.violation("C11.R5", rt.qual, stmt_head(x), "keywords must be returned unchanged", xl)
-        elif themtrue:
-            seen.add("them")
-            if v == "prefix + '_*'":
-                r.ok("C11.R5", rt.qual, "them → prefix + '_*'", xl)
-            else:
-                r.violation("C11.R5", rt.qual, stmt_head(x), "'them' must become the pattern prefix + '_*' (all and only this application's filter detections)", xl)
+    # a colliding draw is drawn again: interpreted with a rule that already owns '_filt_xxxxxxxxxx_flt' and a random stand-in
+    # that returns x…x first and y…y afterwards
+    from ..tabulate import Raised
+    try:
+        rule_, filt_ = c02.interpret_filter_application(ctx, "flt", rule_detections={"sel": "D(sel)", "_filt_xxxxxxxxxx_flt": "D(own)"}, draws=("x", "y"))
+        dets = rule_.detection.detections
+        if dets.get("_filt_xxxxxxxxxx_flt") == "D(own)" and any(k != "_filt_xxxxxxxxxx_flt" and k.endswith("_flt") and v == "D(flt)" for k, v in dets.items()):
+            r.ok("C11.R5", ap.qual, "a drawn prefix that existing detection names start with is drawn again (the rule's detection survives, the filter's gets another name)", ploc)
         else:
-            seen.add("other")
-            if v == "prefix + '_' + token":
-                r.ok("C11.R5", rt.qual, "other token → prefix + '_' + token", xl)
-            else:
-                r.violation("C11.R5", rt.qual, stmt_head(x), "every non-keyword token must be returned as prefix + '_' + token, otherwise it can name a detection of the rule (capture)", xl)
-    for need in ("kw", "them", "other"):
-        if need not in seen:
-            r.violation("C11.R5", rt.qual, f"branch '{need}'", "callback branch missing", rt.loc)
+            r.violation("C11.R5", ap.qual, "prefix collision", f"with a rule that owns a detection starting with the drawn prefix the detections become {dets}: the rule's own detection is overwritten by (or shares its name with) the filter's, so the rule's condition evaluates the filter's detection", ploc)
+    except Raised as ex:
+        r.violation("C11.R5", ap.qual, "prefix collision", f"interpretation raises {ex}", ploc)
     # storing detections + combination
     stores = [n for n in walk_no_nested(ap.node) if isinstance(n, ast.Assign) and any(isinstance(t, ast.Subscript) and unparse(t.value) == "rule.detection.detections" for t in n.targets)]
     # the same store written as detections.update({key: value for ...}) — (key, value) taken from the comprehension
@@ -357,7 +330,7 @@ def run(ctx) -> None:
             f.rule = "C11.R7"
     r.rule_counts["C11.R7"] = r.rule_counts.pop("C02.R4", 0)
     r.rule_text["C11.R7"] = "selector resolution keeps the two sides apart: " + r.rule_text.pop("C02.R4")
-    for rid, n in (("C11.R1", 3), ("C11.R2", 3), ("C11.R3", 8), ("C11.R4", 1), ("C11.R5", 7), ("C11.R6", 4)):
+    for rid, n in (("C11.R1", 3), ("C11.R2", 2), ("C11.R3", 8), ("C11.R4", 1), ("C11.R5", 5), ("C11.R6", 4)):
         r.floor(rid, n)
 
 
